@@ -493,11 +493,17 @@ def load_known_findings(prop):
         line = line.strip()
         if not line.startswith("finding:"):
             continue
-        fields = dict(re.findall(r"(\w+)=((?:\"[^\"]*\")|\S+)", line))
+        fields = dict(re.findall(r"(\w+)=((?:\"[^\"]*\")|\S+)", line.split(" witness=")[0]))
         if fields.get("property") == prop:
             fields = {k: v.strip('"') for k, v in fields.items()}
-            m = re.search(r"what=(.*)$", line)
-            fields["what"] = m.group(1) if m else ""
+            m = re.search(r"what=(.*?)(?: witness=|$)", line)
+            fields["what"] = m.group(1).strip() if m else ""
+            m = re.search(r" witness=(.*)$", line)
+            if m:
+                try:
+                    fields["witness"] = json.loads(m.group(1))
+                except ValueError:
+                    fields["witness"] = None
             out.append(fields)
     return out
 
@@ -530,8 +536,17 @@ def finish(ctx, obligations, trusted_base, level_note_assumptions, rule):
     lines = []
     for fid, n in sorted(ctx.known_hits.items()):
         what = ctx.known_what.get(fid, "")
-        lines.append(f"KNOWN-FINDING: property={prop} {fid} {what} (reproduced on {n} cases)")
+        lines.append(f"KNOWN-FINDING: property={prop} id={fid} {what} (reproduced on {n} cases of this run)")
+    for f in getattr(ctx, "findings", []):
+        if f.get("id") not in ctx.known_hits:
+            ctx.notes.append(f"known finding {f.get('id')} did not reproduce in this run (witness no longer fails)")
     real = ctx.violations
+    if os.environ.get("VERIF_DEBUG"):
+        for v in real[:40]:
+            print("DEBUG violation:", {k: (shorten(safe_dec(x), 400) if isinstance(x, str) and k in ("impl", "first", "reparsed", "model") else x)
+                                       for k, x in v.items() if k not in ("request",)})
+        for d in getattr(ctx, "diffs", [])[:20]:
+            print("DEBUG diff:", {k: x for k, x in d.items() if k not in ("request", "model", "impl")})
     if real:
         rc = 1
         seen = set()
